@@ -202,7 +202,7 @@ class Family:
         isa, d = self.isa, self.mn[mn]
         sp = spell or mn
         is_store = mn == "st"
-        disp = 16 if is_store else 8  # never the same location: C06 owns memory dependencies
+        disp = 1000 if is_store else 8  # never the same location, even after write-back bumps
         if isa == "x86":
             m = "%d(%%%s)" % (disp, base)
             text = "%s %s, %s" % (sp, rtext(isa, data), m) if is_store else \
